@@ -428,6 +428,7 @@ class Unit:
         self.havocs = []
         self.lost_anchors = []
         self.degraded_fns = set()
+        self.anchor_fp = {}   # fn id -> list of fingerprints of where each positional anchor attached (drift => degraded)
         self.trait_contracts = []
         self.reduced = []
         self.order = []
@@ -650,9 +651,14 @@ class Unit:
         bm = rs.mask(body)
         inserts = []  # (pos, segs)
         lps = rs.loops(bm, 1, len(bm) - 1)
+        fps = self.anchor_fp.setdefault(fid, [])
+        def loop_fp(n):
+            kw, br = lps[n - 1]
+            fps.append('loop %d of %d: %s' % (n, len(lps), ' '.join(body[kw:br].split())))
         for n, text in block.get('loops', {}).items():
             if n < 1 or n > len(lps):
                 raise GenError('%s: loop %d not found (%d loops)' % (spec, n, len(lps)))
+            loop_fp(n)
             inserts.append((lps[n - 1][1], self.contract_segs(fid, text, 'loop%d.' % n, props)))
         # N9: name the for-loop iterator (`in X` -> `in it: X`) so invariants can mention it (ghost only)
         for n, nm in block.get('iters', {}).items():
@@ -668,6 +674,7 @@ class Unit:
                 raise GenError('%s: loop %d not found' % (spec, n))
             close = rs.match_close(bm, lps[n - 1][1])
             pos = close if pos_kind == 'end' else close + 1
+            loop_fp(n)
             acount += 1
             oid = '%s/%s/assert#%d' % (self.name, fid, acount)
             has_assert = re.search(r'\bassert\b', rs.mask(text)) is not None
@@ -690,6 +697,7 @@ class Unit:
                     # a pure hint (ghost `let`, closure annotation): dropped; what depended on it fails on its own
                     self.log.append({'rule': 'lost-hint', 'where': where, 'before': needle, 'after': '(ghost hint dropped: anchor not found)'})
                 continue
+            fps.append('at %d of %d: %s' % (n, _count(body, needle), needle))
             if side == 'after':
                 pos += len(needle)
             acount += 1
@@ -946,12 +954,33 @@ class _MergedImpl:
         self.end = -2
 
 
+def _count(body, needle):
+    """Number of occurrences of needle that start in code."""
+    c = 0
+    try:
+        while True:
+            _nth(body, needle, c + 1, '')
+            c += 1
+    except GenError:
+        return c
+
+
 def _nth(body, needle, n, spec):
+    """Position of the n-th occurrence of needle that STARTS IN CODE (not inside a comment or a string literal):
+    a comment that happens to quote the anchored statement must not capture the anchor."""
+    m = rs.mask(body)
     pos = -1
     start = 0
-    for _ in range(n):
+    found = 0
+    while found < n:
         pos = body.find(needle, start)
         if pos < 0:
             raise GenError('lost anchor: %s: occurrence %d of %r not found in body' % (spec, n, needle))
         start = pos + 1
+        # first non-space character of the needle must be code
+        k = pos
+        while k < len(body) and body[k].isspace():
+            k += 1
+        if k < len(m) and m[k] == body[k]:
+            found += 1
     return pos
